@@ -3,7 +3,7 @@
 Several string routines of pySigma are loops whose body depends on the current character only through a few membership
 tests (``c in char_mapping``, ``c == escape_char``, ``c in filter_set`` …).  For such a body the set of behaviours is
 finite: one representative per character class and one value per flag.  ``Interp`` evaluates an extracted statement list
-(If / For / Expr / Assign / AugAssign / Continue / Break / Pass only; any other statement kind is an AnalysisError) on
+(If / For / While / Expr / Assign / AugAssign / Continue / Break / Pass / Return / Raise / Try / FunctionDef; any other statement kind is an AnalysisError) on
 such an abstract state, so a rule can compare the resulting transition table with the specified one.  The soundness
 condition of the abstraction — the body reads the character only through the listed atoms — is checked by
 ``char_dependencies``.  Nothing of pySigma is imported or called: expressions are evaluated with an empty builtin
@@ -104,6 +104,17 @@ class Interp:
             elif isinstance(s, ast.For):
                 for v in list(self.ev(s.iter)):
                     self._bind(s.target, v)
+                    try:
+                        self.run(s.body)
+                    except _Continue:
+                        continue
+                    except _Break:
+                        break
+            elif isinstance(s, ast.While):
+                while self.ev(s.test):
+                    self.steps += 1
+                    if self.steps > self.max_steps:
+                        raise AnalysisError("tabulation: step bound exceeded in while loop")
                     try:
                         self.run(s.body)
                     except _Continue:
